@@ -152,8 +152,14 @@ def campaign_jobs(pid, prop, tier, seed):
 def run_job(pid, tier, binpaths, job, outroot):
     b, t, s, i = job
     kind = b.get('kind', 'rc')
-    outdir = os.path.join(outroot, '%s-s%d' % (b['name'], i))
-    shutil.rmtree(outdir, ignore_errors=True)
+    final_outdir = os.path.join(outroot, '%s-s%d' % (b['name'], i))
+    shutil.rmtree(final_outdir, ignore_errors=True)
+    # the harness rewrites current.case before every case: keep the job directory on tmpfs while it runs
+    # (10x faster under load) and move it under build/out when the process has exited
+    outdir = final_outdir
+    if os.access('/dev/shm', os.W_OK):
+        outdir = '/dev/shm/verif-%d-%s-%s-s%d' % (os.getpid(), pid, b['name'], i)
+        shutil.rmtree(outdir, ignore_errors=True)
     os.makedirs(outdir)
     lg = os.path.join(outdir, 'run.log')
     env = base_env(dict(b.get('env', {})))
@@ -185,8 +191,15 @@ def run_job(pid, tier, binpaths, job, outroot):
         env['PBT_BIN_DIR'] = os.path.join(build.build_root(), 'bin')
     else:
         cmd = [binpaths[b['name']]]
-    rc, to, wall = run_proc(cmd, env, timeout, lg)
-    return dict(bin=b, tierconf=t, seed=s, idx=i, outdir=outdir, rc=rc, timeout=to, wall=wall, log=lg)
+    try:
+        rc, to, wall = run_proc(cmd, env, timeout, lg)
+    finally:
+        if outdir != final_outdir:
+            if kind == 'fuzz':
+                shutil.rmtree(os.path.join(outdir, 'corpus'), ignore_errors=True)  # can be large; artifacts are kept
+            shutil.move(outdir, final_outdir)
+            lg = os.path.join(final_outdir, 'run.log')
+    return dict(bin=b, tierconf=t, seed=s, idx=i, outdir=final_outdir, rc=rc, timeout=to, wall=wall, log=lg)
 
 
 def load_stats(outdir):
